@@ -85,6 +85,21 @@ Theorem C05T_tup_mistyped : forall (m : attrs) (k : list N) (ty : N) (rest : lis
 Proof. exact tup_mistyped. Qed.
 Print Assumptions C05T_tup_mistyped.
 
+(* Decode succeeds only on an input whose first field is a MAP at tag 0 ... *)
+Theorem C05T_tup_strict_map : forall bs : list N, t_stat (tup_decode bs) = TSOk ->
+  exists r two, read_head2 bs = Some (tMAP, 0, r, two).
+Proof. exact tup_strict_map. Qed.
+Print Assumptions C05T_tup_strict_map.
+(* ... which is false of the decoder before fa80196 (lookup optional, its result ignored): an input without any
+   field at tag 0 decodes to {"a": "x"} because the tag byte of a two-byte head is re-read as the head of the count *)
+Theorem C05T_optional_map_refuted :
+  let bs := [248; 2; 0; 0; 0; 1; 6; 1; 97; 29; 0; 0; 1; 120] in
+  read_head2 bs = Some (tMAP, 2, [0; 0; 0; 1; 6; 1; 97; 29; 0; 0; 1; 120], true) /\
+  t_stat (tup_decode_5664fef bs) = TSOk /\ t_ins (tup_decode_5664fef bs) = [([97], [120])] /\
+  t_stat (tup_decode bs) = TSErr.
+Proof. exact optional_map_reinterprets. Qed.
+Print Assumptions C05T_optional_map_refuted.
+
 (* ---- packets: header length consistency ---- *)
 Theorem C05T_frame_header : forall body more : list N, 4 + N.of_nat (length body) < 4294967296 ->
   hdr (frame body ++ more) = Some (N.of_nat (length (frame body))).
